@@ -147,13 +147,14 @@ def encode(mir, suffix, mode):
     fn_text, params, ret = mir2smt.extract_fn(mir, suffix)
     enc = mir2smt.Enc(mode)
     inputs, paths = mir2smt.walk(fn_text, params, enc)
-    if len(paths) != 1 or len(inputs) != 1:
-        raise mir2smt.Unsupported(f"expected one path / one input, got {len(paths)} / {len(inputs)}")
-    return enc, inputs[0], paths[0], fn_text
+    if len(paths) < 1 or len(paths) > 64 or len(inputs) != 1:
+        raise mir2smt.Unsupported(f"expected 1..64 paths / one input, got {len(paths)} / {len(inputs)}")
+    return enc, inputs[0], paths, fn_text
 
 
-def obligations(enc, inp, path, unit_per_sec):
-    """Return (prelude, pre, [(key, negated-goal)], outputs) for C17."""
+def obligations(enc, inp, paths, unit_per_sec):
+    """Return (prelude, pre, [(key, negated-goal)], (sec, mic, okflag), widths) for C17.
+    `paths` are the complete (returning) paths of the acyclic MIR body."""
     name, w = inp
     x = f"|{name}|"
     W = 160  # wide enough for seconds*10^6 + micro and ms*1000
@@ -167,20 +168,35 @@ def obligations(enc, inp, path, unit_per_sec):
         def c(v): return str(v)
         pre = f"(< {x} {unit_per_sec * (1 << 32)})"
         mul, add, lt = "*", "+", "<"
-    sec, ws = path.ret["seconds"]
-    mic, wm = path.ret["microseconds"]
     us_per_unit = 1_000_000 // unit_per_sec
     input_us = f"({mul} {wide(x, w)} {c(us_per_unit)})"
-    total = f"({add} ({mul} {wide(sec, ws)} {c(1_000_000)}) {wide(mic, wm)})"
     goals = []
-    for i, (ok, msg, before) in enumerate(path.asserts):
-        cond = " ".join(before) if before else "true"
-        goals.append((f"no_panic[{i}]: {msg[:60]}", f"(and {cond} (not {ok}))", False))
-    allok = " ".join(a[0] for a in path.asserts) or "true"
-    goals.append(("microseconds<1000000", f"(and {allok} (not ({lt} {wide(mic, wm)} {c(1_000_000)})))", True))
-    goals.append(("seconds*10^6+microseconds==input_in_us", f"(and {allok} (not (= {total} {input_us})))", True))
+    seen = set()
+    conds = []
+    ws = wm = None
+    for pi, path in enumerate(paths):
+        sec, ws = path.ret["seconds"]
+        mic, wm = path.ret["microseconds"]
+        for i, (ok, msg, before) in enumerate(path.asserts):
+            neg = f"(and true {' '.join(before)} (not {ok}))"
+            if neg in seen:
+                continue
+            seen.add(neg)
+            goals.append((f"no_panic[{len(goals)}]: {msg[:60]}", neg, False))
+        pc = "(and true " + " ".join(path.cond) + ")"
+        conds.append((pc, sec, mic))
+        total = f"({add} ({mul} {wide(sec, ws)} {c(1_000_000)}) {wide(mic, wm)})"
+        goals.append((f"path{pi}: microseconds<1000000", f"(and {pc} (not ({lt} {wide(mic, wm)} {c(1_000_000)})))", True))
+        goals.append((f"path{pi}: seconds*10^6+microseconds==input_in_us", f"(and {pc} (not (= {total} {input_us})))", True))
+    okflag = "(or false " + " ".join(pc for pc, _, _ in conds) + ")"
+    zero_s = enc.const(0, ws)
+    zero_m = enc.const(0, wm)
+    outsec, outmic = zero_s, zero_m
+    for pc, sec, mic in reversed(conds):
+        outsec = f"(ite {pc} {sec} {outsec})"
+        outmic = f"(ite {pc} {mic} {outmic})"
     prelude = enc.decls + [f"(assert {s})" for s in enc.side]
-    return prelude, pre, goals, (sec, mic, allok)
+    return prelude, pre, goals, (outsec, outmic, okflag), (ws, wm)
 
 
 def run(prop, pdef, work, tier, log):
@@ -201,15 +217,15 @@ def run(prop, pdef, work, tier, log):
         for sname in SOLVER_BATCH:
             mode = "bv" if "bv" in sname else "int"
             try:
-                enc, inp, path, fn_text = encode(mir, suffix, mode)
-                prelude, pre, goals, outs = obligations(enc, inp, path, unit)
+                enc, inp, paths, fn_text = encode(mir, suffix, mode)
+                prelude, pre, goals, outs, widths = obligations(enc, inp, paths, unit)
             except mir2smt.Unsupported as e:
                 res["inconclusive"].append(f"{kname}: translator refused: {e}")
                 break
             wd = os.path.join(work.out, "smt")
             os.makedirs(wd, exist_ok=True)
             xin = f"|{inp[0]}|"
-            items = [("@sanity", [pre] + ([f"(and {outs[2]})"] if outs[2] != "true" else []), None)]
+            items = [("@sanity", [pre, outs[2]], None)]
             for key, neg, _ in goals:
                 items.append((key, [pre, neg], None))
             r1, dt, errs = run_batch(sname, prelude, items, wd, f"{kname}-{sname}-goals", timeout=kern.get("timeout", 300))
@@ -247,11 +263,10 @@ def run(prop, pdef, work, tier, log):
             tests += [rnd.randrange(0, unit * (1 << 32)) for _ in range(6)]
             tests = sorted({t for t in tests if t // unit < (1 << 32)})
             nat = native_ts(bins, "dev", kname, tests)
-            okflag = f"(and {outs[2]})" if outs[2] != "true" else "true"
             srt = (lambda w: f"(_ BitVec {w})") if mode == "bv" else (lambda w: "Int")
-            defs = [f"(define-fun okflag () Bool {okflag})",
-                    f"(define-fun outsec () {srt(path.ret['seconds'][1])} {outs[0]})",
-                    f"(define-fun outmic () {srt(path.ret['microseconds'][1])} {outs[1]})"]
+            defs = [f"(define-fun okflag () Bool {outs[2]})",
+                    f"(define-fun outsec () {srt(widths[0])} {outs[0]})",
+                    f"(define-fun outmic () {srt(widths[1])} {outs[1]})"]
             items3 = [(str(tv), [f"(= {xin} {enc.const(tv, inp[1])})"], ["okflag", "outsec", "outmic"]) for tv in tests]
             r3, dt, errs = run_batch(sname, prelude + defs, items3, wd, f"{kname}-{sname}-concrete", timeout=300)
             smt_time += dt
@@ -295,8 +310,9 @@ def run(prop, pdef, work, tier, log):
                             break
                     if reproduced:
                         break
-                os.makedirs(os.path.join(VERIF, "replay", "cases"), exist_ok=True)
-                cpath = os.path.join(VERIF, "replay", "cases", f"{prop}-{kname}.json")
+                cdir = os.environ.get("VERIF_CASES_DIR", os.path.join(VERIF, "replay", "cases"))
+                os.makedirs(cdir, exist_ok=True)
+                cpath = os.path.join(cdir, f"{prop}-{kname}.json")
                 case = {"engine": "smt", "property": prop, "kernel": kname, "unit_per_sec": unit, "obligation": key,
                         "models": models.get(key, {}), "reproduced": reproduced}
                 json.dump(case, open(cpath, "w"), indent=1)
